@@ -55,6 +55,9 @@ def deposit_step(ck, prog, op, lp_kind, receiver):
         # the touched position is the one with that duration
         hit = [a for a, d in o2]
         ck.oblige('C11.%s.duration.%s' % (op, tag), p, z3.And(*[z3.Or(d != D) for a, d in o2]) if o2 else True, 'the position carries the requested unbonding duration')
+        durs = [d for a, d in o2]
+        ck.oblige('C11.%s.unique_durations.%s' % (op, tag), p, z3.Or(*[durs[i] == durs[j] for i in range(len(durs)) for j in range(i)]) if len(durs) > 1 else False,
+                  'Inv kept: a user never holds two open positions with the same unbonding duration (close moves "the" position with that duration)')
         if op == 'open':
             ck.oblige('C11.open.bounds.' + tag, p, z3.Or(D < z3.Int('min_dur'), D > z3.Int('max_dur')), 'duration within the factory\'s allowed range')
     ck.require(n >= 1, tag + ': no Ok path')
